@@ -197,6 +197,9 @@ func (r *readOnlySegmentsGroup) PollHighestSegment() (object.RefCount[ReadOnlySe
 	r.allSegments.Remove(offset)
 	segment, found := r.openSegments.Get(offset)
 	if found {
+		// The caller takes over the segment (to delete it or to reopen it as
+		// the current read-write segment): it must not stay in the cache
+		r.openSegments.Remove(offset)
 		return segment.Acquire(), nil
 	}
 
